@@ -55,6 +55,11 @@ trusted base of this tie (coq/theories/DiffIO/NOTES_SRCTIE.md):
       `for key in (PREVIOUS_DIFF_COUNT, PREVIOUS_DISTANCE_CACHE_HIT_COUNT): self._stats[key] = self._stats[key[9:]]`
       (exact text, pinned; the constants are checked to be 'PREVIOUS ' + the other constant) = the two field copies in order
 
+  R15 cache_purge_level (exact text, pinned): `if cache_purge_level not in {0, 1, 2}: raise ValueError(...)` = membership in the listed set;
+      the ONLY `del self._distance_cache` of the file is the first statement of `if self.is_root:` in the `finally:` of the try statement of
+      __init__ that contains the diff and `self.update(view_results)` (so the purge happens after the result is built), under `if cache_purge_level:`
+      (truthiness of an int = non-zero); its last statement is `if cache_purge_level == 2: self.__dict__.clear()`
+
 No eval, no import of deepdiff: the files are read and ast.parse'd.
 """
 import ast
@@ -116,6 +121,9 @@ PREV_LOOP = ("for key in (PREVIOUS_DIFF_COUNT, PREVIOUS_DISTANCE_CACHE_HIT_COUNT
              "    self._stats[key] = self._stats[key[9:]]")
 INIT_CACHE = "self._distance_cache = LFUCache(cache_size) if cache_size else DummyLFU()"
 COUNT_DIFF_TAIL = "if self.cache_size and self.cache_tuning_sample_size:\n    self._auto_tune_cache()"
+PURGE_RANGE = "if cache_purge_level not in {0, 1, 2}:\n    raise ValueError(PURGE_LEVEL_RANGE_MSG)"
+PURGE_DEL = "if cache_purge_level:\n    del self._distance_cache\n    del self.hashes"
+PURGE_CLEAR = "if cache_purge_level == 2:\n    self.__dict__.clear()"
 LOCALS = {"_distance": "V", "cache_key": "key"}
 STAT_FIELDS = {"DIFF_COUNT": "st_diff_count", "DISTANCE_CACHE_HIT_COUNT": "st_hit_count", "PREVIOUS_DIFF_COUNT": "st_prev_diff_count",
                "PREVIOUS_DISTANCE_CACHE_HIT_COUNT": "st_prev_hit_count", "DISTANCE_CACHE_ENABLED": "st_enabled"}
@@ -906,6 +914,36 @@ class Translator:
             "(* %s:%d  _ENABLE_CACHE_EVERY_X_DIFF: self.cache_tuning_sample_size * 10 *)\n"
             "Definition g_init_enable_every (v_cache_tuning_sample_size : Z) : Z := (v_cache_tuning_sample_size * 10)%%Z."
             % (DIFF, n_cache[0].lineno, INIT_CACHE, DIFF, flag[0][0].lineno, DIFF, every[0][0].lineno))
+        # ---- __init__: cache_purge_level (R15) ---------------------------------------------------------------------------
+        rng_chk = [st for st in ast.walk(init) if isinstance(st, ast.If) and any(isinstance(n, ast.Name) and n.id == "cache_purge_level" for n in ast.walk(st.test))]
+        if len(rng_chk) != 3:
+            bad(init, "cache_purge_level is tested %d times in __init__, the translator knows 3" % len(rng_chk))
+        chk = [st for st in rng_chk if same(st, PURGE_RANGE)]
+        if len(chk) != 1:
+            bad(init, "`%s` not found (once) in __init__" % PURGE_RANGE.replace("\n", " "))
+        levels = [e.value for e in chk[0].test.comparators[0].elts]
+        tries = [st for st in ast.walk(init) if isinstance(st, ast.Try)]
+        fin = [t for t in tries if any(isinstance(n, ast.Delete) and any(is_cache(x) for x in n.targets) for f in t.finalbody for n in ast.walk(f))]
+        if len(fin) != 1 or sum(1 for n in ast.walk(self.diff_tree) if isinstance(n, ast.Delete) and any(is_cache(x) for x in n.targets)) != 1:
+            bad(init, "`del self._distance_cache` is not (once) in the `finally:` of one try statement of __init__")
+        t = fin[0]
+        if not any(isinstance(n, ast.Call) and isinstance(n.func, ast.Attribute) and n.func.attr == "_diff" for b in t.body for n in ast.walk(b)) \
+                or not any(isinstance(n, ast.Call) and isinstance(n.func, ast.Attribute) and n.func.attr == "update" for b in t.body for n in ast.walk(b)):
+            bad(t, "the try statement whose `finally:` purges the cache does not contain the diff and the `self.update(view_results)`")
+        if not (len(t.finalbody) == 1 and isinstance(t.finalbody[0], ast.If) and ast.unparse(t.finalbody[0].test) == "self.is_root"
+                and not t.finalbody[0].orelse and t.finalbody[0].body and same(t.finalbody[0].body[0], PURGE_DEL)
+                and same(t.finalbody[0].body[-1], PURGE_CLEAR)):
+            bad(t.finalbody[0] if t.finalbody else t, "the `finally:` is not `if self.is_root:` starting with `%s` and ending with `%s`"
+                % (PURGE_DEL.replace("\n", " "), PURGE_CLEAR.replace("\n", " ")))
+        self.out.append(
+            "(* %s:%d  if cache_purge_level not in {...}: raise ValueError(PURGE_LEVEL_RANGE_MSG) *)\n"
+            "Definition g_purge_level_accepted (v_cache_purge_level : nat) : bool :=\n"
+            "  existsb (Nat.eqb v_cache_purge_level) [%s]%%nat.\n"
+            "(* %s:%d  finally: if self.is_root: if cache_purge_level: del self._distance_cache; del self.hashes   (after the diff and self.update(view_results)) *)\n"
+            "Definition g_purge_deletes_cache (v_cache_purge_level : nat) : bool := negb (Nat.eqb v_cache_purge_level 0).\n"
+            "(* %s:%d  ... if cache_purge_level == 2: self.__dict__.clear() *)\n"
+            "Definition g_purge_clears_object (v_cache_purge_level : nat) : bool := Nat.eqb v_cache_purge_level 2."
+            % (DIFF, chk[0].lineno, "; ".join("%d" % x for x in levels), DIFF, t.finalbody[0].body[0].lineno, DIFF, t.finalbody[0].body[-1].lineno))
         head = [
             "(* GENERATED by harness/translate/cacheglue.py from %s and %s - do not edit.\n"
             "   Regenerated from the current source and compiled on every run of ./check C17;\n"
